@@ -47,22 +47,19 @@ func c03Gen(r *RNG, id string, agg bool) *Case {
 		maxW = 40
 	}
 	ref, names, seqs := genAlignment(r, maxW, 30)
+	if n := manyRecords(r, c, 25); n > 0 {
+		ref, names, seqs = genAlignment(r, 24, 1)
+		names = randNames(r, n, "")
+		for len(seqs) < n {
+			seqs = append(seqs, mutateSeq(r, ref, sym17, 1, 4, true))
+		}
+	}
 	hard := r.Bool()
 	c.SetBool("hard", hard).Set("ref", ref).Set("names", strings.Join(names, ",")).Set("seqs", strings.Join(seqs, ","))
 	c.SetBool("agg", agg)
 	thrN, thrD := 0, 1
 	if agg {
-		n := len(seqs)
-		switch r.Intn(4) {
-		case 0:
-		case 1:
-			thrN, thrD = 1, 1
-		case 2: // exactly k/n when representable with <=3 decimals, else near it
-			k := r.Range(1, n)
-			thrN, thrD = k*1000/n, 1000
-		default:
-			thrN, thrD = r.Range(0, 100), 100
-		}
+		thrN, thrD = genThreshold(r, len(seqs))
 	}
 	c.SetInt("thrn", thrN).SetInt("thrd", thrD)
 	for _, s := range append([]string{ref}, seqs...) {
